@@ -22,7 +22,8 @@ ASSUMPTIONS = ['pandas: Index.intersection/union of sorted DatetimeIndexes are t
                '(outside the quantifier, which names None / ffill / bfill) go through the C12 model for the tail of the list and are generated lightly',
                'nested tuples (_list does not descend into them: members reindexed, not counted for the joint index) are outside the statement (nested lists/dicts) and generated only lightly, against the model',
                'presync with join naming a parameter: the named argument is a timeseries, a pd.Index, an array or dict(index=...); a list / plain dict there (list of indexes, no reindex accepts it) is not generated',
-               'the ORDER of the columns after column alignment is not compared (a set in the statement); 2-d arrays and arrays mixed with pandas objects (ValueError) are sampled only lightly',
+               'the ORDER of the columns after column alignment is not compared (a set in the statement); arrays mixed with pandas objects (ValueError) are sampled only lightly; 2-d arrays are NOT generated (the wire carries 1-d arrays only; probed by hand: '
+               'df_sync([a(3x2), b(1x2), c(2,)], "oj") front-pads each along axis 0)',
                'float values are exact multiples of 1/4']
 S = 4
 nan = float('nan')
@@ -747,23 +748,46 @@ def laws(rng, tier, ctx):
             bad = check_members(leaves(pos) + leaves(kw), leaves(res[0]) + leaves(res[1]), want, sx[5], None)
         if bad:
             yield Finding('violation', case, bad)
-    # bare arrays: aligned at the end
+    # bare arrays: aligned at the end - flat lists, nested lists / dicts beside scalars and strings (the joint length is taken over
+    # EVERY array at any depth: theorem sync_arrays), with a fill method (aligned, then filled by position), and as the
+    # arguments of a presync-decorated function
     for _ in range(n // 2):
         arrs = [np.array([rng.choice(VALS) if rng.random() > 0.2 else nan for _ in range(rng.choice([0, 1, 2, 3, 4, 6]))], dtype=float) for _ in range(rng.choice([2, 3]))]
         how = rng.choice(HOWS)
-        case = dict(tag='law-arrays', lines=['(align sync %s %s N ij)' % (enc_tree(arrs), how)])
+        m = rng.choice(['N', 'N', 'ffill', 'bfill'])
+        shape = rng.choice(['flat', 'flat', 'nested', 'presync'])
+        if shape == 'nested':
+            tree = [arrs[0], rng.choice(SCALARS), {'k': arrs[1], 'j': rng.choice(SCALARS)}] + [[a, 'x'] for a in arrs[2:]]
+        else:
+            tree = list(arrs)
+        case = dict(tag='law-arrays' + ('' if shape == 'flat' else '-' + shape) + ('' if m == 'N' else '+fill'), lines=['(align sync %s %s %s ij)' % (enc_tree(tree), how, m)])
         try:
-            res = pyg_base.df_sync(arrs, how)
+            if shape == 'presync':
+                res = pyg_base.presync(_fv)(*tree, join=how, method=dec_method(m), columns=False)
+                res = list(res[0]) if isinstance(res, tuple) and len(res) == 2 and res[1] == {} else None
+            else:
+                res = pyg_base.df_sync(tree, how, dec_method(m))
         except Exception as e:
-            yield Finding('violation', case, 'df_sync raised %s: %s' % (type(e).__name__, str(e)[:120]))
+            yield Finding('violation', case, 'df_sync / presync raised %s: %s' % (type(e).__name__, str(e)[:120]))
             continue
         count += 1
+        if res is None or not passthrough_ok(tree, res):
+            yield Finding('violation', case, 'container structure changed or a non-array member was not passed through unchanged')
+            continue
         lens = [len(a) for a in arrs]
         want = min(lens) if how == 'ij' else max(lens) if how == 'oj' else lens[0] if how == 'lj' else lens[-1]
-        for a, b in zip(arrs, res):
+        outs = [x for x in leaves(res) if isinstance(x, np.ndarray)]
+        for a, b in zip(arrs, outs):
             exp = list(a[len(a) - want:]) if want <= len(a) else [nan] * (want - len(a)) + list(a)
+            if m != 'N':
+                seq, last = (exp if m == 'ffill' else exp[::-1]), nan
+                filled = []
+                for v in seq:
+                    last = v if v == v else last
+                    filled.append(last)
+                exp = filled if m == 'ffill' else filled[::-1]
             if not same_vals(list(map(float, b)), list(map(float, exp))):
-                yield Finding('violation', case, 'arrays are not aligned at the end: got %s, expected %s' % (list(b), exp))
+                yield Finding('violation', case, 'arrays are not aligned at the end%s: got %s, expected %s' % ('' if m == 'N' else ' and then filled', list(b), exp))
                 break
     yield count
 
